@@ -227,3 +227,56 @@ def register(M):
         if info['method'] in ('into_owned', 'to_owned'):
             return str_of(ex, v)
         return v
+
+    # ---------------------------------------------------------------- plain operations on string literals
+    def lit(s):
+        """the characters of a string literal object (as MIR prints it), or None"""
+        if isinstance(s, Obj) and s.kind == 'str':
+            t = s.text
+            if t.startswith('b"'):
+                t = t[1:]
+            if t.startswith('"') and t.endswith('"'):
+                t = t[1:-1]
+            if '\\' in t:
+                t = t.replace('\\\\', '\x00').replace('\\"', '"').replace('\\n', '\n').replace('\\t', '\t').replace('\x00', '\\')
+            return t
+        return None
+
+    def mklit(t):
+        return Obj('str', text='"%s"' % t.replace('\\', '\\\\').replace('"', '\\"').replace('\n', '\\n').replace('\t', '\\t'))
+
+    @reg('str::starts_with', '<impl>::starts_with', 'String::starts_with')
+    def _(ex, info, a, dty):
+        s, p = str_of(ex, a[0]), str_of(ex, a[1])
+        ls, lp = lit(s), lit(p)
+        if ls is not None and lp is not None:
+            return z3.BoolVal(ls.startswith(lp))
+        if isinstance(s, Obj) and s.kind == 'symstr' and lp is not None:
+            return z3.Bool('starts-with(%s, %s)' % (s.name, lp))
+        raise Inconclusive('starts_with on %r / %r' % (s, p))
+
+    @reg('str::chars', '<impl>::chars')
+    def _(ex, info, a, dty):
+        ls = lit(str_of(ex, a[0]))
+        if ls is None:
+            raise Inconclusive('chars() of a string that is not a literal')
+        return Obj('iter', items=tuple(z3.BitVecVal(ord(c), 32) for c in ls), ty=dty)
+
+    @reg('char::len_utf8', 'char::methods::<impl>::len_utf8', '<impl>::len_utf8')
+    def _(ex, info, a, dty):
+        c = z3.simplify(ex.materialize(a[0]))
+        if not z3.is_bv_value(c):
+            raise Inconclusive('len_utf8 of a symbolic char')
+        return bv(len(chr(c.as_long()).encode('utf-8')))
+
+    @reg('str::split_at', '<impl>::split_at')
+    def _(ex, info, a, dty):
+        ls = lit(str_of(ex, a[0]))
+        n = z3.simplify(ex.materialize(a[1]))
+        if ls is None or not z3.is_bv_value(n):
+            raise Inconclusive('split_at on a string that is not a literal / at a symbolic index')
+        b = ls.encode('utf-8')
+        k = n.as_long()
+        if k > len(b):
+            raise PathEnd('panic', 'split_at out of bounds')
+        return Adt('(&str, &str)', {(None, 0): Ref(Cell(mklit(b[:k].decode('utf-8'))), ()), (None, 1): Ref(Cell(mklit(b[k:].decode('utf-8'))), ())})
